@@ -25,8 +25,25 @@ ghost var fsContent map[string]int     // abstract content id of the log file at
 
 // reads the index file, or rebuilds it from the log when missing/header-only.
 // ASSUMED (I/O): the result is the index derived from the log file on disk.
+// C11 "always rebuildable": the index is rebuilt exactly when its file is missing or holds no item (at most the
+// 8-byte header); a failing Stat is an error, never a silent rebuild or a silent read
+func (Segment).NeedsReindex
+    flags noframe only_derive
+    ensures[derive_missing] !fsExists[s.Index] ==> ret0 && ret1 == nil
+    ensures[derive_short]   ret1 == nil && fsExists[s.Index] ==> (ret0 <==> fsSize[s.Index] <= index.HeaderSize)
+    ensures[derive_error]   ret1 != nil ==> !ret0 && fsExists[s.Index]
+
+func (Segment).Reindex
+    flags noframe only_derive
+    requires[abs_ok] absDef(fsContent[s.Log])     // holds of every file (definition of the record abstraction)
+    // the rebuild reads THIS segment's log under its base offset and hands parameters and version on
+    assert[derive_open]   arg0 == s.Log && arg1 == s.Offset at call message.OpenReader 1
+    assert[derive_args]   arg0 == s && arg1 == params && arg2 == log && arg3 == version at call (Segment).ReindexReader 1
+
 func (Segment).ReindexAndReadIndex
-    flags assumed
+    flags noframe only_derive
+    assert[derive_rebuild] reindex && arg0 == s && arg1 == params && arg2 == version at call (Segment).Reindex 1
+    assert[derive_read]    !reindex && arg0 == s.Index && arg1 == s.Offset && arg2 == params at call index.Read 1
     ensures err == nil ==> derived(ret0, fsContent[s.Log], params) && fresh(region(ret0)) || err == nil && len(ret0) == 0 && recN(fsContent[s.Log]) == 0
     ensures err != nil ==> ioerr(err)
 
